@@ -132,7 +132,7 @@ func ValOperKey(i int) Key { return K(NKeys - 1 - i) }
 // ValConsAddr returns the consensus address bytes of validator i.
 func ValConsAddr(i int) []byte { return ValConsKey(i).PubKey().Address() }
 
-func (w World) chainID() string {
+func (w World) CID() string {
 	if w.ChainID == "" {
 		return DefaultCID
 	}
@@ -371,7 +371,7 @@ func (w World) BuildGenesis(cdc codec.Codec, def map[string]json.RawMessage) map
 // InitChainRequest builds the request for a world.
 func (w World) InitChainRequest(appState []byte) *abci.RequestInitChain {
 	return &abci.RequestInitChain{
-		ChainId:         w.chainID(),
+		ChainId:         w.CID(),
 		Time:            time.Unix(w.GenesisTime, 0).UTC(),
 		InitialHeight:   1,
 		Validators:      []abci.ValidatorUpdate{},
